@@ -49,7 +49,7 @@ def strategy(tier):
         "segments": st.lists(st.lists(doc_s(), min_size=1, max_size=10), min_size=1, max_size=4),
         "bare_first": st.booleans(),
         "delete": st.lists(st.integers(0, 60), max_size=4),
-        "q": st.sampled_from(["every", "w", "w_or_v", "u"]),
+        "q": st.sampled_from(["every", "w", "w_or_v", "u", "or3", "w_and_v"]),
         "limits": st.lists(st.integers(1, 12), min_size=2, max_size=3),
         "page": st.tuples(st.integers(1, 5), st.integers(1, 6)).map(list),
     })
@@ -117,6 +117,10 @@ def make_query(name):
         return query.Term("body", "w")
     if name == "u":
         return query.Term("body", "u")
+    if name == "or3":
+        return query.Or([query.Term("body", "w"), query.Term("body", "v"), query.Term("body", "u")])
+    if name == "w_and_v":
+        return query.And([query.Term("body", "w"), query.Term("body", "v")])
     return query.Or([query.Term("body", "w"), query.Term("body", "v")])
 
 
@@ -127,6 +131,10 @@ def matches(name, d):
         return "w" in d["body"]
     if name == "u":
         return "u" in d["body"]
+    if name == "or3":
+        return "w" in d["body"] or "v" in d["body"] or "u" in d["body"]
+    if name == "w_and_v":
+        return "w" in d["body"] and "v" in d["body"]
     return "w" in d["body"] or "v" in d["body"]
 
 
@@ -263,6 +271,24 @@ def run(case, out):
         if got not in cands:
             out.fail("c14.multikey_sort", {"got": got[:12], "expected_one_of": [c[:12] for c in cands[:2]]})
             return
+        # --- the score as a sort key next to field keys: (tag, best score first) and (best score first, nm)
+        score_of = dict((h["k"], h.score) for h in full)
+        byk = dict((d["k"], d) for d in docs)
+        got = keys_of(s.search(q, limit=None, sortedby=sorting.MultiFacet([sorting.FieldFacet("tag"), sorting.ScoreFacet()])))
+        exp = sorted(mkeys, key=lambda k: (byk[k]["tag"].encode(), -score_of[k], docnum[k]))
+        if got != exp:
+            out.fail("c14.multikey_sort_with_score:tag_then_score",
+                     {"got": [(k, byk[k]["tag"], score_of.get(k)) for k in got[:10]],
+                      "expected": [(k, byk[k]["tag"], score_of[k]) for k in exp[:10]], "q": qname})
+            return
+        got = keys_of(s.search(q, limit=None, sortedby=sorting.MultiFacet([sorting.ScoreFacet(), sorting.FieldFacet("tag", reverse=True)])))
+        exp = sorted(mkeys, key=lambda k: (-score_of[k], tuple(-b for b in byk[k]["tag"].encode()) + (1,), docnum[k]))
+        if got != exp:
+            out.fail("c14.multikey_sort_with_score:score_then_tag",
+                     {"got": [(k, byk[k]["tag"], score_of.get(k)) for k in got[:10]],
+                      "expected": [(k, byk[k]["tag"], score_of[k]) for k in exp[:10]], "q": qname})
+            return
+        out.label("score_ties" if len(set(score_of.values())) < len(score_of) else "scores_distinct")
         # --- grouping
         r = s.search(q, limit=None, groupedby={"tag": sorting.FieldFacet("tag"), "tx": sorting.FieldFacet("tx"),
                                                "tx2": sorting.FieldFacet("tx2"), "st": sorting.StoredFieldFacet("st"),
